@@ -1,6 +1,7 @@
 # C13 Every produced packet fits its carrier: computed wire-size bounds and constant relations
 import re
 from sa.rules import *
+import rules.wave3 as W3
 from sa import codec
 
 def consts(t, name):
@@ -136,6 +137,7 @@ def rules(t):
             if not all(t.edge_dominates(f, fe, e.bb) for e in enc): r.bad(f"{name}|dom", None, "payload sealed without the limit test")
         if not g: r.bad(f"{name}|missing", None, "no payload limit test")
     out.append(r)
+    out.append(W3.packets_append_only(t, "C13.d"))
     return out
 
 def VARINT_LEN(v): return 1 if v < 64 else 2 if v < 16384 else 4 if v < (1 << 30) else 8
